@@ -117,6 +117,15 @@ def mosekEmit : M (Except String (List TaskCall)) := do
   | Option.none => pure ()
   pure (.ok t.calls)
 
+/-- `MosekWrapper.heuristic(W)`: the objective matrix handed to MOSEK is the lower triangle of `W`
+(`np.argwhere(np.tril(W))`, row-major, zero entries dropped, values `W[i, j]` unchanged — the symmetric
+reading of the lower triangle by `appendsparsesymmat` accounts for the upper one) -/
+def mosekHeuristic (W : List (List Coef)) : List Trip :=
+  (List.range W.length).flatMap (fun i =>
+    (List.range (i + 1)).filterMap (fun j =>
+      let v := (W.getD i []).getD j 0
+      if v == 0 then Option.none else some ⟨i, j, v⟩))
+
 /-- the items as the cvxpy wrapper tracks them (for the routing theorem `recover_spec`) -/
 def cvxItems : M (List Item) := do
   let w ← get
